@@ -19,6 +19,7 @@ From I18n Require Import Lib.Outcome Model.IntExpr Model.PluralForms Model.Tags 
   Model.PoUnescape Model.PoParser Model.PoLexer.
 From I18n Require Import Lib.Outcome Model.IntExpr Model.PluralForms
   Model.FmtPerlBrace Model.FmtPython Model.FmtPyBrace Model.FmtInstances Spec.CPyPercent Spec.CPyFormat Generated.Ucd.
+From I18n Require Import Model.Terminal.
 Extraction Language OCaml.
 Extraction "model.ml"
   IntExpr.parse_string IntExpr.pyeval IntExpr.codomain IntExpr.period
@@ -47,5 +48,6 @@ Extraction "model.ml"
   PoLexer.detect_encoding PoLexer.codecs_open_text PoLexer.load_po PoLexer.pofile
   FmtInstances.perl_parse_ucd FmtPerlBrace.names_of
   FmtInstances.fmtpy_parse_gen CPyPercent.cpy_events CPyPercent.cpy_syntax_error CPyPercent.plain_percents CPyPercent.cpy_format
+  Terminal.strip_delay
   FmtInstances.pybrace_parse_gen FmtInstances.pybrace_domain_gen CPyFormat.cpy_markup CPyFormat.cpy_format Ucd.re_d_value
   .
